@@ -481,6 +481,21 @@ func IterCB(pj *simdjson.ParsedJson) (roots []*ref.Value, err error) {
 		if err != nil {
 			return err
 		}
+		// the self-aliased descent: root, then the root's value, both in the receiver itself
+		if len(roots) > 0 {
+			self := pj.Iter()
+			st, serr := self.AdvanceIter(&self)
+			if serr != nil || st != simdjson.TypeRoot {
+				return fmt.Errorf("AdvanceIter(dst == receiver) on a fresh iterator gives (%v, %v)", st, serr)
+			}
+			st, serr = self.AdvanceIter(&self)
+			if serr != nil {
+				return fmt.Errorf("second AdvanceIter(dst == receiver) gives (%v, %v)", st, serr)
+			}
+			if d := shallowDiff(&self, st, roots[0]); d != "" {
+				return fmt.Errorf("AdvanceIter(dst == receiver) into the first root exposes a different value: %s", d)
+			}
+		}
 		// the same through Root + AdvanceIter: each root iterator yields its one value, then the end
 		it := pj.Iter()
 		for n := 0; it.Advance() == simdjson.TypeRoot; n++ {
@@ -572,6 +587,7 @@ func iterValue(it *simdjson.Iter, t simdjson.Type, depth int) (*ref.Value, error
 		ai := a.Iter()
 		var elem simdjson.Iter
 		for {
+			before := ai
 			et, err := ai.AdvanceIter(&elem)
 			if err != nil {
 				return nil, err
@@ -585,6 +601,19 @@ func iterValue(it *simdjson.Iter, t simdjson.Type, depth int) (*ref.Value, error
 				return nil, e
 			}
 			v.A = append(v.A, c)
+			// the documented self-aliased form ("if dst and i are the same, both will contain the value
+			// inside") must land on the same element: first element and every fifth after it
+			if n := len(v.A) - 1; n%5 == 0 {
+				st, serr := before.AdvanceIter(&before)
+				if serr != nil || st != et {
+					return nil, fmt.Errorf("AdvanceIter(dst == receiver) gives (%v, %v) where a separate destination gives (%v, nil)", st, serr, et)
+				}
+				// compared one level deep (members/elements with their kinds; scalars in full): re-walking
+				// whole subtrees here would be exponential in the nesting depth
+				if d := shallowDiff(&before, st, c); d != "" {
+					return nil, fmt.Errorf("AdvanceIter(dst == receiver) exposes a different value than a separate destination: %s", d)
+				}
+			}
 			// the element iterator's scope is this one value (possibly followed by deleted
 			// entries up to the very end of its tape): stepping on must report the end, not an error
 			if et != simdjson.TypeObject && et != simdjson.TypeArray {
@@ -838,4 +867,87 @@ func dstArr(depth int) *simdjson.Array {
 		return nil
 	}
 	return arrPool[depth]
+}
+
+// shallowDiff compares what an iterator resting on a value of type t exposes with want, one level
+// deep: a scalar in full, a container by its members' keys and kinds in order.
+func shallowDiff(it *simdjson.Iter, t simdjson.Type, want *ref.Value) string {
+	kindOf := func(v *ref.Value) simdjson.Type {
+		switch v.K {
+		case ref.Object:
+			return simdjson.TypeObject
+		case ref.Array:
+			return simdjson.TypeArray
+		case ref.String:
+			return simdjson.TypeString
+		case ref.Int:
+			return simdjson.TypeInt
+		case ref.Uint:
+			return simdjson.TypeUint
+		case ref.Float:
+			return simdjson.TypeFloat
+		case ref.Null:
+			return simdjson.TypeNull
+		}
+		return simdjson.TypeBool
+	}
+	if kindOf(want) != t {
+		return fmt.Sprintf("type %v, want %v", t, kindOf(want))
+	}
+	switch t {
+	case simdjson.TypeObject:
+		o, err := it.Object(nil)
+		if err != nil {
+			return err.Error()
+		}
+		var e simdjson.Iter
+		for n := 0; ; n++ {
+			name, et, err := o.NextElementBytes(&e)
+			if err != nil {
+				return err.Error()
+			}
+			if et == simdjson.TypeNone {
+				if n != len(want.Keys) {
+					return fmt.Sprintf("%d members, want %d", n, len(want.Keys))
+				}
+				return ""
+			}
+			if n >= len(want.Keys) {
+				return fmt.Sprintf("more than %d members", len(want.Keys))
+			}
+			if string(name) != string(want.Keys[n]) || et != kindOf(want.Vals[n]) {
+				return fmt.Sprintf("member %d is %q (%v), want %q (%v)", n, name, et, want.Keys[n], kindOf(want.Vals[n]))
+			}
+		}
+	case simdjson.TypeArray:
+		a, err := it.Array(nil)
+		if err != nil {
+			return err.Error()
+		}
+		ai := a.Iter()
+		var e simdjson.Iter
+		for n := 0; ; n++ {
+			et, err := ai.AdvanceIter(&e)
+			if err != nil {
+				return err.Error()
+			}
+			if et == simdjson.TypeNone {
+				if n != len(want.A) {
+					return fmt.Sprintf("%d elements, want %d", n, len(want.A))
+				}
+				return ""
+			}
+			if n >= len(want.A) {
+				return fmt.Sprintf("more than %d elements", len(want.A))
+			}
+			if et != kindOf(want.A[n]) {
+				return fmt.Sprintf("element %d is %v, want %v", n, et, kindOf(want.A[n]))
+			}
+		}
+	}
+	got, err := scalar(it, t)
+	if err != nil {
+		return err.Error()
+	}
+	return ref.Diff(want, got)
 }
